@@ -1707,6 +1707,23 @@ def g_c13(rng, tier, budget):
         yield ("find avx2 auto default 1 0 %s 0 %s" % (nx, hxpr), dict(meta))
         yield ("find avx2 none default 1 0 %s 0 %s" % (nx, hxpr), dict(meta))
         yield ("rfind avx2 %s 0 %s" % (nx, hxpr), dict(meta))
+    # construction of finders for megabyte needles (suffix computations, hashing, byte sets)
+    M = 2 ** 20
+    for nm, nx in (("b-a^k", join_parts(["62", rep("61", M - 1)])), ("a^k-b", join_parts([rep("61", M - 1), "62"])),
+                   ("c-(ba)^k", join_parts(["63", rep("6261", M // 2)])), ("(ab)^k-c", join_parts([rep("6162", M // 2), "63"])),
+                   ("a^k", rep("61", M)), ("a-b^k-a", join_parts(["61", rep("62", M - 2), "61"]))):
+        meta = dict(cfg="host", family="c13-huge-new-" + nm, bound=C13_K * M + C13_K0, size=M, tbound_ns=C13_NS_PER_BYTE * M + C13_NS_CONST)
+        yield ("fnew avx2 auto default %s" % nx, dict(meta))
+        yield ("rfind avx2 %s 0 %s" % (nx, "r64x7a"), dict(meta))
+    # complete traversals with very many matches (per-match overhead must stay constant)
+    for nm, nx, m, hxpr, n in (("dense", "6162", 2, rep("6162", M // 2), M), ("spaced", rep("61", 40), 40, rep("61" * 40 + "7a", M // 41), (M // 41) * 41),
+                               ("empty-needle", "-", 0, rep("7a", M // 8), M // 8)):
+        hb, nb = expand(hxpr), expand(nx)
+        meta = dict(cfg="host", family="c13-huge-iter-" + nm, size=n + m, tbound_ns=C13_NS_PER_BYTE * (n + m) + C13_NS_CONST)
+        cnt = greedy_count(hb, nb) + 1
+        yield ("finditer avx2 auto default %s 0 %s %s" % (nx, hxpr, "n" * cnt), dict(meta, bound=C13_K * (n + m) + C13_K0 * (cnt + 1)))
+        cnt = greedy_count(hb, nb, rev=True) + 1
+        yield ("rfinditer avx2 %s 0 %s %s" % (nx, hxpr, "n" * cnt), dict(meta, bound=C13_K * (n + m) + C13_K0 * (cnt + 1)))
     for name, nx, m, hxpr, n in c13_families(rng, sizes):
         bound = C13_K * (n + m) + C13_K0
         for (variant, cfg) in cfgs:
@@ -1745,6 +1762,22 @@ def g_c09(rng, tier, budget):
                    dict(cfg=variant, family="rfind-" + cfg, untraced_widths=MM_UNTRACED.get(cfg)))
     for arch, a, b2, c, d, e in itertools.product(["x86_64", "aarch64", "wasm32simd128", "other"], [0, 1], [0, 1], [0, 1], [0, 1], [0, 1]):
         yield ("select %s %d %d %d %d %d" % (arch, a, b2, c, d, e), dict(family="select", modelonly=True))
+    if tier == "quick":
+        # the two feature builds (no `std`: compile-time dispatch; `+avx2` at compile time) also in
+        # the quick run, on a sample of the same streams (thorough runs them in full)
+        r2 = random.Random(rng.random())
+        for (variant, picked) in (("alloconly", "sse2"), ("avx2ct", "avx2")):
+            for op, meta in gen_byte_api(r2, "quick", ["fwd", "rev"], 3000, with_count=True):
+                if meta.get("cfg") == "host" and op.split(" ", 1)[0] in ("memchrd", "countd") and r2.random() < 0.3:
+                    parts = op.split(" ")
+                    parts[1] = picked
+                    yield (" ".join(parts), dict(cfg=variant, family=parts[0] + "-" + variant, untraced_widths=UNTRACED.get(picked)))
+            for op, meta in gen_find(r2, "quick", 300, cfgs=[(variant, picked)]):
+                yield op, meta
+            pairs = list(mm_pairs(r2, "quick", 300))
+            for needle, hay in r2.sample(pairs, min(len(pairs), 1500)):
+                yield ("rfind %s %s %d %s" % (picked, hx(needle), 3, hx(hay)),
+                       dict(cfg=variant, family="rfind-" + variant, untraced_widths=MM_UNTRACED.get(picked)))
 
 
 def g_c15(rng, tier, budget):
